@@ -1005,4 +1005,171 @@ def R3b_grid_steppers(run):
               detail="rem_euclid(t, s) == 0 => t - s")
 
 
-RULES = [R1_constants, R2_step, R2b_rounding_primitives, R3_loop, R3b_grid_steppers, R4_fee_manager_ports, R5_quotes, R6_cross_checks]
+def R3c_sequence_lookup(run):
+    run.title("R3c", "the SDK's tick lookup serves exactly the ticks of the supplied arrays: tick(i) refuses i outside [start_index, end_index] and i off the grid; the array is "
+                     "(i - first start) / (88 * spacing) and the slot (i - that array's start) / spacing; start_index = max(first start, MIN_TICK), "
+                     "end_index = min(last present array's start + 88 * spacing - 1, MAX_TICK)")
+    from analysis.poly import poly, show_poly
+    K = run.sdk
+    pre = "math::tick_array::TickArraySequence::<SIZE>::"
+    fn = K.need_fn(pre + "tick")
+    run.touch(fn)
+    pv = prov_of(fn)
+    conds = set()
+    for at in A.atoms(fn):
+        c = at.cond()
+        if not c or not at.true_fail:
+            continue
+        codes = at.true_codes
+        if is_param(c[1], "tick_index") and c[0] in ("Lt", "Gt") and strip(c[2])[0] == "call":
+            conds.add((c[0], strip(c[2])[1].rsplit("::", 1)[-1], ",".join(sorted(codes))))
+        l_ = strip(c[1])
+        if c[0] == "Ne" and const_val(c[2]) == 0 and l_[0] == "bin" and l_[1] == "Rem" and is_param(l_[2], "tick_index") and is_field(strip(l_[3]), "tick_spacing"):
+            conds.add(("off-grid", "", ",".join(sorted(codes))))
+    want = {("Lt", "start_index", "TICK_INDEX_OUT_OF_BOUNDS"), ("Gt", "end_index", "TICK_INDEX_OUT_OF_BOUNDS"), ("off-grid", "", "INVALID_TICK_INDEX")}
+    run.check("R3c", "lookup-refusals", conds == want, "SDK tick() refuses %s, expected %s" % (sorted(conds), sorted(want)), loc=fn.loc(), detail="i < start, i > end => out of bounds; i % spacing != 0 => invalid")
+
+    def atom(t):
+        t = strip(t)
+        if t[0] == "param" and t[1] == "tick_index":
+            return "i"
+        if is_field(t, "tick_spacing"):
+            return "s"
+        if t[0] == "call" and t[1].endswith("tick_array::start_tick_index") and len(t[2]) == 1:
+            ix = strip(t[2][0])
+            if ix[0] == "index" and is_field(strip(ix[1]), "tick_arrays"):
+                return "start[%s]" % ("0" if const_val(ix[2]) == 0 else "k")
+        return show(t, True)
+    ok = False
+    found = "?"
+    for bi, bb in enumerate(fn.blocks):
+        if bb["t"]["k"] != "ret":
+            continue
+        for l in leaves(pv.local(0, bi, len(bb["s"]))):
+            p_ = _ok_payload(l)
+            if p_ is None or p_[0] != "index":
+                continue
+            slot, arr = strip(p_[2]), strip(p_[1])
+            if not (slot[0] == "bin" and slot[1] == "Div" and arr[0] == "call" and arr[1].endswith("tick_array::ticks")):
+                continue
+            ai = strip(strip(arr[2][0])[2]) if strip(arr[2][0])[0] == "index" else None
+            if ai is None or not (ai[0] == "bin" and ai[1] == "Div"):
+                continue
+            num_a, den_a = poly(ai[2], atom), poly(ai[3], atom)
+            num_s, den_s = poly(slot[2], atom), poly(slot[3], atom)
+            found = "array (%s)/(%s), slot (%s)/(%s)" % (show_poly(num_a), show_poly(den_a), show_poly(num_s), show_poly(den_s))
+            ok = num_a == {("i",): 1, ("start[0]",): -1} and den_a == {("s",): 88} and num_s == {("i",): 1, ("start[k]",): -1} and den_s == {("s",): 1}
+            # ... and the array whose start is subtracted is the array the tick is read from
+            st_ix = [strip(x[2][0])[2] for x in subterms(slot[2]) if x[0] == "call" and x[1].endswith("tick_array::start_tick_index") and strip(x[2][0])[0] == "index"
+                     and const_val(strip(x[2][0])[2]) != 0]
+            ok = ok and len(st_ix) == 1 and strip(st_ix[0]) == strip(strip(arr[2][0])[2])
+    run.check("R3c", "lookup-formula", ok, "SDK tick() reads %s" % found, loc=fn.loc(), detail="arrays[(i - start[0]) / (88 s)].ticks[(i - start[k]) / s]")
+    g = K.need_fn(pre + "start_index")
+    run.touch(g)
+    pg = prov_of(g)
+    r = [strip(l) for bi, bb in enumerate(g.blocks) if bb["t"]["k"] == "ret" for l in leaves(pg.local(0, bi, len(bb["s"])))]
+    ok = len(r) == 1 and r[0][0] == "call" and r[0][1].endswith("::max") and {atom(x) if const_val(x) is None else const_val(x) for x in r[0][2]} == {"start[0]", -443636}
+    run.check("R3c", "start-index", ok, "SDK start_index is %s, expected max(first array's start, MIN_TICK_INDEX)" % [sh(x, 60) for x in r], loc=g.loc(), detail="max(start[0], -443636)")
+    e = K.need_fn(pre + "end_index")
+    run.touch(e)
+    pe = prov_of(e)
+    r = [strip(l) for bi, bb in enumerate(e.blocks) if bb["t"]["k"] == "ret" for l in leaves(pe.local(0, bi, len(bb["s"])))]
+    ok = len(r) == 1 and r[0][0] == "call" and r[0][1].endswith("::min") and any(const_val(x) == 443636 for x in r[0][2])
+    if ok:
+        body = [x for x in r[0][2] if const_val(x) != 443636][0]
+
+        def atom_e(t):
+            t = strip(t)
+            if is_field(t, "tick_spacing"):
+                return "s"
+            if t[0] != "bin" and mentions(t, lambda x: (x[0] in ("call", "fn")) and x[1].rsplit("::", 1)[-1] in ("start_index", "start_tick_index")):
+                return "last"       # a start index chosen among the arrays (a scan with a running variable, or an iterator search)
+            return show(t, True)
+        ok = poly(body, atom_e) == {("last",): 1, ("s",): 88, (): -1}
+        # the start carried into the formula is that of a present array: a start is compared with i32::MAX (in the scan, or in the
+        # predicate of the iterator search)
+        bodies = [e] + [K.fn(x[1]) for x in subterms(body) if x[0] == "closure" and K.fn(x[1]) is not None]
+        tests = [at for f_ in bodies for at in A.atoms(f_) if at.cond() and at.cond()[0] in ("Ne", "Eq") and const_val(at.cond()[2]) == 2147483647]
+        rets_ = [1 for f_ in bodies[1:] for bi, bb in enumerate(f_.blocks) if bb["t"]["k"] == "ret"
+                 for l in leaves(prov_of(f_).local(0, bi, len(bb["s"]))) if strip(l)[0] == "bin" and strip(l)[1] in ("Ne", "Eq") and 2147483647 in (const_val(strip(l)[2]), const_val(strip(l)[3]))]
+        ok = ok and len(tests) + len(rets_) == 1
+    run.check("R3c", "end-index", ok, "SDK end_index is %s, expected min(last present array's start + 88 * spacing - 1, MAX_TICK_INDEX)" % [sh(x, 80) for x in r], loc=e.loc(),
+              detail="min(last + 88 s - 1, 443636)")
+
+
+def R5b_transfer_fee_arithmetic(run):
+    run.title("R5b", "the SDK's Token-2022 transfer-fee arithmetic (what a quote adds to / takes off the amounts the pool sees): fee = min(ceil(amount * bps / 10_000), max_fee) "
+                     "taken off; the inverse is ceil(amount * 10_000 / (10_000 - bps)) unless its fee reaches max_fee (then amount + max_fee), and amount + max_fee at 100 %")
+    K = run.sdk
+    cvk = K.const_value
+    den = cvk("math::token::BPS_DENOMINATOR") if hasattr(K, "const_value") else None
+    def is_den(t):
+        return const_val(t) == 10000
+    def fld(t, name):
+        t = strip(t)
+        return t[0] == "field" and t[2] == name and is_param(strip(t[1]), "transfer_fee")
+    def ceil_of(t):
+        """div_ceil(checked_mul(a, b)?, d) -> (a, b, d) through ok_or / ? / map_err / try_into"""
+        for x in subterms(t):
+            if x[0] == "call" and x[1].endswith("::div_ceil") and len(x[2]) == 2:
+                mm = [y for y in subterms(x[2][0]) if y[0] == "call" and y[1].endswith("::checked_mul") and len(y[2]) == 2]
+                if len(mm) == 1:
+                    return (strip(mm[0][2][0]), strip(mm[0][2][1]), strip(x[2][1]))
+        return None
+    fn = K.need_fn("math::token::try_apply_transfer_fee")
+    run.touch(fn)
+    pv = prov_of(fn)
+    outs = [_ok_payload(l) for bi, bb in enumerate(fn.blocks) if bb["t"]["k"] == "ret" for l in leaves(pv.local(0, bi, len(bb["s"])))]
+    outs = [o for o in outs if o is not None]
+    net = [o for o in outs if o[0] == "bin"]
+    same = [o for o in outs if is_param(o, "amount")]
+    ok = len(net) == 1 and len(same) >= 1 and len(outs) == len(net) + len(same)
+    if ok:
+        o = net[0]
+        ok = o[1] in ("Sub", "SubWithOverflow") and is_param(o[2], "amount")
+        m_ = strip(o[3])
+        ok = ok and m_[0] == "call" and m_[1].endswith("::min") and len(m_[2]) == 2 and any(fld(x, "max_fee") for x in m_[2])
+        if ok:
+            c = ceil_of([x for x in m_[2] if not fld(x, "max_fee")][0])
+            ok = c is not None and {("amount" if is_param(c[0], "amount") else "bps" if fld(c[0], "fee_bps") else "?"), ("amount" if is_param(c[1], "amount") else "bps" if fld(c[1], "fee_bps") else "?")} == {"amount", "bps"} and is_den(c[2])
+    run.check("R5b", "apply", ok, "SDK try_apply_transfer_fee returns %s, expected amount - min(ceil(amount * fee_bps / 10_000), max_fee) (or amount unchanged)" % [sh(o, 100) for o in outs], loc=fn.loc(),
+              detail="amount - min(ceil(amount * bps / 10000), max_fee)")
+    conds = {(at.cond()[0], "bps" if fld(at.cond()[1], "fee_bps") else "amount" if is_param(at.cond()[1], "amount") else "?", const_val(at.cond()[2])) for at in A.atoms(fn) if at.cond()}
+    run.check("R5b", "apply-cases", conds == {("Gt", "bps", 10000), ("Eq", "bps", 0), ("Eq", "amount", 0)}, "SDK try_apply_transfer_fee distinguishes %s" % sorted(conds), loc=fn.loc(),
+              detail="bps > 10000 => error; bps == 0 or amount == 0 => unchanged")
+    g = K.need_fn("math::token::try_reverse_apply_transfer_fee")
+    run.touch(g)
+    # (>= or >: at fee == max_fee both arms give amount + max_fee)
+    cap = [at for at in A.atoms(g) if at.cond() and at.cond()[0] in ("Ge", "Lt", "Gt", "Le") and fld(strip(at.cond()[2]), "max_fee")]
+    ok = len(cap) == 1
+    why = "no test of the fee against max_fee"
+    if ok:
+        at = cap[0]
+        fee = strip(at.cond()[1])
+        sub = [x for x in subterms(fee) if x[0] == "call" and x[1].endswith("::checked_sub") and len(x[2]) == 2]
+        ok = len(sub) == 1 and is_param(strip(sub[0][2][1]), "amount")
+        c = ceil_of(sub[0][2][0]) if ok else None
+        d_ = strip(c[2]) if c else None
+        kind_ = lambda x: "amount" if is_param(x, "amount") else "den" if is_den(x) else "?"
+        ok = ok and c is not None and {kind_(c[0]), kind_(c[1])} == {"amount", "den"} and \
+            d_[0] == "bin" and d_[1].startswith("Sub") and is_den(d_[2]) and fld(d_[3], "fee_bps")
+        why = "the fee compared with max_fee is %s" % sh(fee, 120)
+        if ok:
+            ge_ = at.cond()[0] in ("Ge", "Gt")
+            pc, pp = prov_assuming(g, [(at, ge_)]), prov_assuming(g, [(at, not ge_)])
+            def rets(pv_):
+                return [strip(l) for bi, bb in enumerate(g.blocks) if bb["t"]["k"] == "ret" and pv_.flow.state_in[bi] is not None for l in leaves(pv_.local(0, bi, len(bb["s"])))
+                        if not (strip(l)[0] == "call" and "from_residual" in strip(l)[1]) and not (strip(l)[0] == "agg")]
+            rc, rp = rets(pc), rets(pp)
+            okc = any(x[0] == "call" and x[1].endswith("ok_or") and is_call(x[2][0], "checked_add") and is_param(strip(x[2][0])[2][0], "amount") and fld(strip(x[2][0])[2][1], "max_fee") for x in rc)
+            okp = any(ceil_of(x) is not None and not any(y[0] == "call" and y[1].endswith("checked_add") for y in subterms(x)) for x in rp)
+            ok = okc and okp
+            why = "capped side returns %s, other side %s" % ([sh(x, 60) for x in rc], [sh(x, 60) for x in rp])
+    run.check("R5b", "reverse", ok, "SDK try_reverse_apply_transfer_fee: %s" % why, loc=g.loc(),
+              detail="pre = ceil(amount * 10000 / (10000 - bps)); pre - amount >= max_fee => amount + max_fee else pre")
+    conds = {(at.cond()[0], "bps" if fld(at.cond()[1], "fee_bps") else "amount" if is_param(at.cond()[1], "amount") else "?", const_val(at.cond()[2])) for at in A.atoms(g) if at.cond() and at not in cap}
+    run.check("R5b", "reverse-cases", conds == {("Gt", "bps", 10000), ("Eq", "bps", 0), ("Eq", "amount", 0), ("Eq", "bps", 10000)}, "SDK try_reverse_apply_transfer_fee distinguishes %s" % sorted(conds),
+              loc=g.loc(), detail="bps > 10000 => error; bps == 0 => unchanged; amount == 0 => 0; bps == 10000 => amount + max_fee")
+
+
+RULES = [R1_constants, R2_step, R2b_rounding_primitives, R3_loop, R3b_grid_steppers, R3c_sequence_lookup, R4_fee_manager_ports, R5_quotes, R5b_transfer_fee_arithmetic, R6_cross_checks]
